@@ -113,9 +113,20 @@ def coq_make():
         open(stamp, "w").write(listing)
     rc, out = run(["timeout", "3000", "make", "-k", "-j16", "-f", "Makefile.coq"], cwd=COQ, timeout=3100)
     failed = []
+    # a target make reports as failed may still have a .vo from an earlier build (its own source unchanged, a
+    # dependency changed): remove it, so that nothing downstream loads the stale file
+    for m in re.finditer(r"\*\*\* \[[^\]]*?:\s*(\S+)\.vo\] Error", out):
+        f = m.group(1) + ".v"
+        for ext in (".vo", ".vos", ".vok", ".glob"):
+            try:
+                os.remove(os.path.join(COQ, m.group(1) + ext))
+            except OSError:
+                pass
+        if f in files and f not in failed:
+            failed.append(f)
     for f in files:
         vo = os.path.join(COQ, f[:-2] + ".vo")
-        if not os.path.exists(vo) or os.path.getmtime(vo) < os.path.getmtime(os.path.join(COQ, f)):
+        if f not in failed and (not os.path.exists(vo) or os.path.getmtime(vo) < os.path.getmtime(os.path.join(COQ, f))):
             failed.append(f)
     return failed, out
 
